@@ -202,6 +202,39 @@ def pair_histories(tier):
     return out
 
 
+def spec_pair_histories(tier, seed, spec):
+    """Fault-free: documents of the specification corpus (input data only) rendered back to back. thorough: every ordered
+    pair under every renderer (stride walks; mode alternates with the stride); quick: four seeded strides per renderer."""
+    n = len(spec)
+    out = []
+    if n < 2:
+        return out
+    for ri, rid in enumerate(W.RENDERER_IDS):
+        if tier == 'thorough':
+            strides = range(1, n + 1)
+        else:
+            strides = sorted({1 + (seed * 7 + ri * 131 + j * 977) % n for j in range(4)})
+        for stride in strides:
+            seen = set()
+            for start in range(n):
+                if start in seen:
+                    continue
+                seq = []
+                j = start
+                while j not in seen:
+                    seen.add(j)
+                    seq.append(j)
+                    j = (j + stride) % n
+                seq.append(j)
+                docs = [spec[x] for x in seq]
+                if stride % 2:
+                    out.append(('spec_pairs', [{'k': 'CTX', 'R': rid, 'opts': {}, 'exit': 'normal',
+                                                'steps': [{'k': 'RENDER', 'doc': d} for d in docs]}]))
+                else:
+                    out.append(('spec_pairs', [{'k': 'MD', 'R': rid, 'opts': {}, 'doc': d} for d in docs]))
+    return out
+
+
 def cross_histories(tier):
     """Every ordered pair of renderer configurations (quick: default options; thorough: every option set), plus a bare
     Document as second party: the first renders every sentinel, then the second does. This is the quantifier's
